@@ -205,8 +205,22 @@ func runCheck(prop string, ps *PropSpec, tier, repo string, seed int, verbose bo
 	var solverMs int64
 	var bindFailures []string
 
-	for _, short := range ps.Funcs {
+	lemmasNeeded := map[string]bool{}
+	lemmasProved := map[string]bool{}
+	funcs := append([]string{}, ps.Funcs...)
+	for fi := 0; fi < len(funcs); fi++ {
+		short := funcs[fi]
+		if fi == len(funcs)-1 {
+			// lemmas used by the functions above and not listed explicitly are proved too
+			for _, n := range sortedKeys(lemmasNeeded) {
+				if !lemmasProved[n] && n != strings.TrimPrefix(short, "lemma:") {
+					lemmasProved[n] = true
+					funcs = append(funcs, "lemma:"+n)
+				}
+			}
+		}
 		if strings.HasPrefix(short, "lemma:") {
+			lemmasProved[strings.TrimPrefix(short, "lemma:")] = true
 			// lemma:<label> — a closed formula stated in a contract file
 			vc, err := lemmaVC(p, strings.TrimPrefix(short, "lemma:"))
 			if err != nil {
@@ -288,6 +302,13 @@ func runCheck(prop string, ps *PropSpec, tier, repo string, seed int, verbose bo
 		}
 		for n := range vc.assumedUsed {
 			assumed[n] = true
+		}
+		for n := range vc.lemmasUsed {
+			lemmasNeeded[n] = true
+			if fi == len(funcs)-1 && !lemmasProved[n] {
+				lemmasProved[n] = true
+				funcs = append(funcs, "lemma:"+n)
+			}
 		}
 		fnReports = append(fnReports, fr)
 	}
@@ -460,6 +481,15 @@ func lemmaVC(p *Prog, label string) (*FuncVC, error) {
 			continue
 		}
 		sp := p.SSAPkgs[l.Pkg]
+		if sp == nil && l.Pkg == "" {
+			// a lemma of a spec file: any package of the repository provides the scope
+			for _, path := range sortedKeys(p.SSAPkgs) {
+				if p.inRepoPkg(p.SSAPkgs[path].Pkg) {
+					sp = p.SSAPkgs[path]
+					break
+				}
+			}
+		}
 		if sp == nil {
 			return nil, fmt.Errorf("package %s of lemma %s is not loaded", l.Pkg, label)
 		}
@@ -473,8 +503,8 @@ func lemmaVC(p *Prog, label string) (*FuncVC, error) {
 		if fn == nil {
 			return nil, fmt.Errorf("no function in package %s", l.Pkg)
 		}
-		vc := NewFuncVC(p, fn, &Contract{Pkg: l.Pkg, Loops: map[int]*LoopSpec{}, Opaque: map[string]bool{}})
-		vc.Name = l.Pkg + ".lemma"
+		vc := NewFuncVC(p, fn, &Contract{Pkg: sp.Pkg.Path(), Loops: map[int]*LoopSpec{}, Opaque: map[string]bool{}})
+		vc.Name = "lemma"
 		var err error
 		func() {
 			defer func() {
@@ -483,6 +513,7 @@ func lemmaVC(p *Prog, label string) (*FuncVC, error) {
 				}
 			}()
 			vc.comp("alloc", arraySort(SInt, SBool), false)
+			vc.comp("escaped", arraySort(SInt, SBool), false)
 			vc.comp("clock", SInt, false)
 			vc.entryState = vc.newState(stEntry, nil)
 			vc.cur = vc.entryState
